@@ -1371,6 +1371,10 @@ func (ff *FuncFacts) term0(e ast.Expr) *Term {
 		switch info.TypeOf(x).Underlying().(type) {
 		case *types.Map, *types.Slice:
 			return freshTerm(x.Pos())
+		case *types.Struct:
+			if len(x.Elts) == 0 {
+				return &Term{K: 'c', Name: "zero:" + types.TypeString(info.TypeOf(x), func(p *types.Package) string { return p.Name() })}
+			}
 		}
 		return nil
 	case *ast.UnaryExpr:
@@ -1525,6 +1529,13 @@ func (ff *FuncFacts) assume(st *State, e ast.Expr, pol bool) *State {
 			case token.LEQ:
 				return st.add(mkFact(!pol, "lt", b, a))
 			}
+		}
+	}
+	if call, ok := e.(*ast.CallExpr); ok {
+		if tv, isT := ff.info().Types[call.Fun]; !isT || !tv.IsType() {
+			// "this call returned true/false here": an event about the site,
+			// which later state changes do not undo
+			st = st.with(mkFact(pol, "true", &Term{K: 'r', Name: "res0", Pos: call.Lparen}, nil))
 		}
 	}
 	if t := ff.term(e); t != nil {
@@ -2655,11 +2666,19 @@ func (ff *FuncFacts) refutes(b *cfg.Block, succ int, inP func(*Fact) bool) bool 
 		var out []*Fact
 		for _, e := range es {
 			learnt := ff.assume(emptyState, e, pol)
-			if learnt == nil || len(learnt.m) != 1 {
+			if learnt == nil {
 				return nil, false
 			}
+			n := 0
 			for _, f := range learnt.m {
+				if f.Op == "true" && f.A.K == 'r' && len(learnt.m) > 1 {
+					continue // the site-result twin of a call condition
+				}
 				out = append(out, f)
+				n++
+			}
+			if n != 1 {
+				return nil, false
 			}
 		}
 		return out, true
